@@ -162,6 +162,19 @@ impl Bloom {
     }
 }
 
+#[cfg(transparencies_stretto_verif)]
+impl Bloom {
+    pub(crate) fn verif_snap(&self) -> crate::verif::BloomSnap {
+        crate::verif::BloomSnap {
+            words: self.bitset.clone(),
+            size: self.size,
+            size_exp: self.size_exp,
+            set_locs: self.set_locs,
+            shift: self.shift,
+        }
+    }
+}
+
 #[cfg(test)]
 mod test {
     use crate::bbloom::Bloom;
